@@ -111,6 +111,7 @@ static Plan shrink(const Plan &orig, const std::function<bool(const Plan &)> &ho
         progress = false;
         for (size_t i = 0; i < best.ops.size(); i++) {
             Op &o = best.ops[i];
+            if (o.uw) { Plan cand = best; cand.ops[i].uw = 0; if (still(cand)) { best = cand; progress = true; continue; } }
             if (o.thr) { Plan cand = best; cand.ops[i].thr = 0; if (still(cand)) { best = cand; progress = true; continue; } }
             if (o.fault) { Plan cand = best; cand.ops[i].fault = 0; cand.ops[i].fa = cand.ops[i].fc = 0; if (still(cand)) { best = cand; progress = true; continue; } }
             if ((o.fault & F_ALLOC) && o.fa > 1) { Plan cand = best; cand.ops[i].fa = 1; if (still(cand)) { best = cand; progress = true; continue; } }
